@@ -82,42 +82,124 @@ impl W2Case {
     }
 }
 
+thread_local! {
+    /// Parameter stream of the operator constructors (seeded per case; None = the fixed defaults of the first build).
+    static OP_PARAMS: std::cell::RefCell<Option<Prng>> = const { std::cell::RefCell::new(None) };
+}
+
+/// Installs the seeded parameter stream for operator constructors of this thread.
+pub fn set_operator_params(seed: Option<u64>) {
+    let p = seed.map(|s| sys::monitor(|| Prng::derive(s, "operator-params")));
+    OP_PARAMS.with(|o| *o.borrow_mut() = p);
+}
+
+/// A parameter: seeded draw from `lo..=hi` when a stream is installed, else the default.
+fn param(lo: usize, hi: usize, default: usize) -> usize {
+    OP_PARAMS.with(|o| match o.borrow_mut().as_mut() {
+        Some(p) => sys::monitor(|| p.usize(lo, hi)),
+        None => default,
+    })
+}
+
+fn param_f(values: &[f64], default: f64) -> f64 {
+    OP_PARAMS.with(|o| match o.borrow_mut().as_mut() {
+        Some(p) => sys::monitor(|| *p.pick(values)),
+        None => default,
+    })
+}
+
 pub fn make_recreate(name: &str, random: Arc<dyn Random>) -> Arc<dyn Recreate> {
     match name {
         "cheapest" => Arc::new(RecreateWithCheapest::new(random)),
-        "skip-best" => Arc::new(RecreateWithSkipBest::new(1, 3, random)),
+        "skip-best" => {
+            let min = param(1, 2, 1);
+            Arc::new(RecreateWithSkipBest::new(min, param(min + 1, 5, 3), random))
+        }
         "blinks" => Arc::new(RecreateWithBlinks::new_with_defaults(random)),
-        "gaps" => Arc::new(RecreateWithGaps::new(2, 10, random)),
+        "gaps" => {
+            let min = param(1, 3, 2);
+            Arc::new(RecreateWithGaps::new(min, param(min + 1, 20, 10), random))
+        }
         "nearest" => Arc::new(RecreateWithNearestNeighbor::new(random)),
         "skip-random" => Arc::new(RecreateWithSkipRandom::new(random)),
         "slice" => Arc::new(RecreateWithSlice::new(random)),
         "farthest" => Arc::new(RecreateWithFarthest::new(random)),
         "perturbation" => Arc::new(RecreateWithPerturbation::new_with_defaults(random)),
-        _ => Arc::new(RecreateWithRegret::new(2, 3, random)),
+        _ => {
+            let min = param(2, 3, 2);
+            Arc::new(RecreateWithRegret::new(min, param(min + 1, 5, 3), random))
+        }
     }
 }
 
 pub fn make_ruin(name: &str, problem: &Arc<Problem>) -> Arc<dyn Ruin> {
-    let limits = RemovalLimits::new(problem.as_ref());
+    let mut limits = RemovalLimits::new(problem.as_ref());
+    if param(0, 2, 0) == 1 {
+        // limits other than the ones derived from the problem size (the JSON config sets them per ruin as well)
+        let min = param(1, 4, 1);
+        limits.removed_activities_range = min..param(min + 1, 14, 8);
+        let rmin = param(1, 2, 2);
+        limits.affected_routes_range = rmin..param(rmin + 1, 5, 5);
+    }
     match name {
-        "adjusted-string" => Arc::new(AdjustedStringRemoval::new_with_defaults(limits)),
+        "adjusted-string" => Arc::new(AdjustedStringRemoval::new(param(2, 10, 10), param(2, 10, 10), param_f(&[0.01, 0.05, 0.2], 0.01), limits)),
         "neighbour" => Arc::new(NeighbourRemoval::new(limits)),
         "random-job" => Arc::new(RandomJobRemoval::new(limits)),
         "random-route" => Arc::new(RandomRouteRemoval::new(limits)),
         "close-route" => Arc::new(CloseRouteRemoval::new(limits)),
         "worst-route" => Arc::new(WorstRouteRemoval::new(limits)),
-        "worst-job" => Arc::new(WorstJobRemoval::new(4, limits)),
-        _ => Arc::new(ClusterRemoval::new_with_defaults(problem.clone()).expect("cluster removal")),
+        "worst-job" => Arc::new(WorstJobRemoval::new(param(1, 6, 4), limits)),
+        _ => {
+            if param(0, 1, 0) == 1 {
+                Arc::new(ClusterRemoval::new(problem.clone(), limits).expect("cluster removal"))
+            } else {
+                Arc::new(ClusterRemoval::new_with_defaults(problem.clone()).expect("cluster removal"))
+            }
+        }
     }
 }
 
 pub fn make_local(name: &str, random: Arc<dyn Random>) -> Arc<dyn LocalOperator> {
+    let noise = |default: bool| -> (f64, f64, f64) {
+        if default {
+            return (0.05, -0.25, 0.25);
+        }
+        let (min, max) = [(-0.1, 0.1), (0.8, 1.2), (-0.1, 1.2), (0.0, 0.5)][param(0, 3, 0)];
+        (param_f(&[0.05, 0.5, 1.0], 0.05), min, max)
+    };
     match name {
-        "swap-star" => Arc::new(ExchangeSwapStar::new(random, 200)),
-        "inter-route-best" => Arc::new(ExchangeInterRouteBest::default()),
-        "inter-route-random" => Arc::new(ExchangeInterRouteRandom::default()),
-        "intra-route-random" => Arc::new(ExchangeIntraRouteRandom::default()),
-        "sequence" => Arc::new(ExchangeSequence::default()),
+        "swap-star" => Arc::new(ExchangeSwapStar::new(random, param(50, 400, 200))),
+        "inter-route-best" => {
+            if param(0, 1, 0) == 1 {
+                let (pr, min, max) = noise(false);
+                Arc::new(ExchangeInterRouteBest::new(pr, min, max))
+            } else {
+                Arc::new(ExchangeInterRouteBest::default())
+            }
+        }
+        "inter-route-random" => {
+            if param(0, 1, 0) == 1 {
+                let (pr, min, max) = noise(false);
+                Arc::new(ExchangeInterRouteRandom::new(pr, min, max))
+            } else {
+                Arc::new(ExchangeInterRouteRandom::default())
+            }
+        }
+        "intra-route-random" => {
+            if param(0, 1, 0) == 1 {
+                let (pr, min, max) = noise(false);
+                Arc::new(ExchangeIntraRouteRandom::new(pr, min, max))
+            } else {
+                Arc::new(ExchangeIntraRouteRandom::default())
+            }
+        }
+        "sequence" => {
+            if param(0, 1, 0) == 1 {
+                Arc::new(ExchangeSequence::new(param(2, 8, 6), param_f(&[0.0, 0.1, 0.5, 1.0], 0.5), param_f(&[0.0, 0.01, 0.5], 0.01)))
+            } else {
+                Arc::new(ExchangeSequence::default())
+            }
+        }
         _ => Arc::new(RescheduleDeparture::default()),
     }
 }
@@ -137,7 +219,7 @@ pub fn make_search(name: &str, problem: &Arc<Problem>, env: &Arc<Environment>, p
         }
         "decompose" => {
             let inner = create_default_heuristic_operator(problem.clone(), env.clone());
-            Arc::new(DecomposeSearch::new(inner, (2, p.usize(2, 4)), p.usize(1, 3), 200))
+            Arc::new(DecomposeSearch::new(inner, (2, p.usize(2, 4)), p.usize(1, 3), param(50, 400, 200)))
         }
         "redistribute" => Arc::new(RedistributeSearch::new(make_recreate(RECREATES[p.usize(0, 9)], random))),
         "infeasible" => {
@@ -400,6 +482,8 @@ pub fn execute(case: &W2Case, cache_checks: bool, per_insertion: bool) -> crate:
         let population: TargetPopulation = Box::new(ElitismPopulation::new(problem.goal.clone(), env.random.clone(), 3, 2));
         let mut refinement_ctx = RefinementContext::new(problem.clone(), population, TelemetryMode::None, env.clone());
         let mut p = sys::monitor(|| Prng::derive(script_seed, "script"));
+        // operator parameters: the defaults in one case of three, else seeded from the ranges the JSON config allows
+        set_operator_params(if script_seed % 3 == 0 { None } else { Some(script_seed) });
 
         // H3: observe every applied insertion (triage mode: first document which breaks a hard rule)
         let trace = sys::monitor(|| std::env::var_os("VSIM_TRACE_INSERTIONS").is_some());
@@ -550,6 +634,7 @@ pub fn execute(case: &W2Case, cache_checks: bool, per_insertion: bool) -> crate:
             }
         }
         vrp_core::verif::set_insertion_observer(None);
+        set_operator_params(None);
         sys::monitor(|| {
             let st = loop_state.borrow();
             out.cache.routes_compared += st.0.routes_compared;
